@@ -623,10 +623,11 @@ def describe(tier):
             "separator_styles": len(STYLES),
             "rect_to_rect": "10 alignments x {omitted,meet,slice} x case/padding variants, src/dst any reals with w,h>=0",
             "algebra": "all real 6-tuples / points (unbounded)",
+            "lex": "op(numbers) with the numbers as symbolic strings over '0159+-.eE', length by arity 5/3/2/1 (thorough 6/3/2/1), 2 (4) separator styles, `re` of the loaded module replaced by backtracking regex semantics over symbolic characters; oracle: SVG 1.1 number production, comma-wsp mandatory between numbers",
         },
         "outside": [
             "IEEE rounding of + - * / (reals stand for floats)",
-            "number lexing by float() (C10)",
+            "CPython float() itself (modelled: sign, digits, fraction, exponent <= 400)", "transform lists without comma-wsp between numbers (not in the SVG 1.1 transform grammar)",
             "numeric values of sin/cos/tan (symbols only)",
             "transform lists longer than the bound",
         ],
